@@ -78,10 +78,21 @@ class Gen:
     def expr(self, ty, sc, d):
         r = self.r
         vs = [v for v in sc.all() if v[1] == ty and (self.impure_ok or v[0] not in self.mut_globals)]
+        if ty.startswith("HashMap"):
+            return V(r.choice(vs)[0])           # callers make sure a map of this type is in scope
         if d <= 0 or r.random() < 0.25:
             if vs and r.random() < 0.6:
                 return V(r.choice(vs)[0])
             return self.lit(ty, sc, d)
+        if self.feat.get("maps") and ty in ("int", "bool", "string"):
+            ms = [v for v in sc.all() if v[1] in (self.MII, self.MSI, self.MIS)]
+            if ms and self.impure_ok and r.random() < 0.18:      # a map is mutable state: read it only where effects are allowed
+                m = r.choice(ms)
+                key = (lambda: self.expr("int", sc, 1) if r.random() < 0.3 else I(r.randint(-1, 4))) if m[1] != self.MSI else (lambda: S(r.choice(["", "a", "hi", "k"])))
+                vty = "string" if m[1] == self.MIS else "int"
+                if ty == "bool": return Call("map_has", V(m[0]), key())
+                if ty == "int" and (vty != "int" or r.random() < 0.3): return Call("map_size", V(m[0]))
+                if ty == vty: return Call("map_get", V(m[0]), key())
         if ty == "int":
             c = r.random()
             if c < 0.30:
@@ -96,7 +107,7 @@ class Gen:
                 ivs = [v for v in sc.all() if v[1] == "int" and (self.impure_ok or v[0] not in self.mut_globals)]
                 if ivs: return Un("-", V(r.choice(ivs)[0]))
             if c < 0.62:
-                fs = [f for f in self.funcs if f[2] == "int"]
+                fs = [f for f in self.funcs if f[2] == "int" and all(not t.startswith("HashMap") or any(v[1] == t for v in sc.all()) for t in f[1])]
                 if fs and self.impure_ok:
                     f = r.choice(fs)
                     return Call(f[0], *self.multi(*[(lambda t=t: self.expr(t, sc, d - 1)) for t in f[1]])) if f[1] else Call(f[0])
@@ -187,8 +198,32 @@ class Gen:
             out += self.stmt(sc, depth, inloop, ret)
         return out
 
+    MII, MSI, MIS = "HashMap<int, int>", "HashMap<string, int>", "HashMap<int, string>"
+
+    def map_stmt(self, sc):
+        """a statement on a HashMap in scope (or the declaration of a new one)"""
+        r = self.r
+        ms = [v for v in sc.all() if v[1] in (self.MII, self.MSI, self.MIS)]
+        if not ms or r.random() < 0.15:
+            name = self.fresh("hm"); ty = r.choice([self.MII, self.MII, self.MSI, self.MIS])
+            sc.vars.append((name, ty, False))
+            return [Let(name, ty, Call("map_new"))]
+        m = r.choice(ms)
+        key = (lambda: self.expr("int", sc, 1) if r.random() < 0.3 else I(r.randint(-1, 4))) if m[1] != self.MSI else (lambda: S(r.choice(["", "a", "hi", "k"])))
+        vty = "string" if m[1] == self.MIS else "int"
+        c = r.random()
+        if c < 0.5:
+            k, v = self.multi(key, lambda: self.expr(vty, sc, 2))
+            return [Ex(Call("map_put", V(m[0]), k, v))]
+        if c < 0.65: return [Ex(Call("map_remove", V(m[0]), key()))]
+        if c < 0.8: return [Println(Call("map_get", V(m[0]), key()))]
+        if c < 0.9: return [Println(Call("map_size", V(m[0])))]
+        return [Println(Call("map_has", V(m[0]), key()))]
+
     def stmt(self, sc, depth, inloop, ret):
         r = self.r
+        if self.feat.get("maps") and r.random() < 0.22:
+            return self.map_stmt(sc)
         c = r.random()
         if c < 0.22:
             ty = r.choice(self.TYPES)
@@ -291,7 +326,8 @@ class Gen:
             gl.append(("gm", "int", True, I(r.randint(0, 5)))); gsc.vars.append(("gm", "int", True)); self.mut_globals.add("gm")
         for k in range(r.randint(1, 3)):
             name = "f%d" % k
-            ptys = [r.choice(["int", "int", "bool", "string", "Point", "array<int>", "Shape"]) for _ in range(r.randint(0, 3))]
+            ptys = [r.choice(["int", "int", "bool", "string", "Point", "array<int>", "Shape"] + ([self.MII, self.MSI] if self.feat.get("maps") else []))
+                    for _ in range(r.randint(0, 3))]
             ret = r.choice(["int", "int", "bool", "string", "Point"])
             sc = Scope(gsc)
             params = []
